@@ -69,6 +69,13 @@ PROBES = {
         matches("attr", "Clone, Deref", "#[default(X { a: 1, b: 2 })] #[doc = \"k0\"] struct X { a: u8, #[hash(ignore)] b: u8 }", r"default \(X.*k0.*hash \(ignore\)", True, "item0"),
     ],
     "C14.strip-on-core-error": [
+        # the type-level helper does not pass the placement check: field- and variant-level derive_ex attributes are stripped all the same
+        matches("attr", "PartialEq, Clone", "#[partial_eq(ignore)] struct X<T> { #[derive_ex(Clone(bound(T: Copy)))] a: T }", NO_HELPER, False, "item0"),
+        matches("attr", "PartialEq, Clone", "#[partial_eq(reverse)] enum X<T> { #[derive_ex(Clone(bound(..)))] A(#[derive_ex(Clone, bound(T: Copy))] T) }", NO_HELPER, False, "item0"),
+        # a helper attribute written in a form it does not have (`name = value`, bare word) is still derive_ex's to report and to remove
+        matches("attr", "Default", "struct X { #[default = 5] a: u8 }", NO_HELPER, False, "item0"),
+        matches("attr", "Debug, Clone", "enum X { A { #[debug = \"x\"] a: u8 }, #[debug] B }", NO_HELPER, False, "item0"),
+        matches("attr", "PartialEq", "#[partial_eq = 1] struct X { #[partial_eq] a: u8 }", NO_HELPER, False, "item0"),
         # the whole derivation fails (a helper attribute that does not parse): the item still comes back without derive_ex's attributes, at every level
         matches("attr", "Debug", "struct X { #[debug(frob)] a: u8, #[debug(ignore)] b: u8 }", r"^struct X \{ a : u8 , b : u8 ,? ?\} :: core :: compile_error !", True),
         matches("attr", "Debug", "#[debug(bound(..))] enum X { A(#[debug(frob)] u8), #[debug(bound(..))] B }", r"^enum X \{ A \(u8\) , B ,? ?\} :: core :: compile_error !", True),
